@@ -215,11 +215,16 @@ func main() {
 		var script []op
 		var lens []int
 		next := 1000
+		big := 0
 		for len(script) < n {
 			r := rng.IntN(10)
 			switch {
 			case len(lens) == 0 || r == 0:
 				k := rng.IntN(6)
+				if big < 2 && rng.IntN(3) == 0 { // a long sequence built by one New (block boundaries of an allocator, if any)
+					k = []int{31, 32, 33, 63, 64, 65, 127, 128, 129, 255, 256, 257, 300, 511, 512, 513, 1000, 1025}[rng.IntN(18)]
+					big++
+				}
 				xs := make([]int, k)
 				for i := range xs {
 					xs[i] = next
